@@ -91,6 +91,8 @@ def seq_dot(a, b):
         return np.float64(acc)
     if a.ndim == 2 and b.ndim == 1:
         return np.array([seq_dot(r, b) for r in a], dtype=float)
+    if a.ndim == 2 and b.ndim == 2:
+        return np.array([[seq_dot(r, b[:, j]) for j in range(b.shape[1])] for r in a], dtype=float).reshape(a.shape[0], b.shape[1])
     return np.dot(a, b)
 
 
